@@ -46,6 +46,11 @@ type SampleBuilder struct {
 	// number of padding packets detected and dropped (this will be a subset of `droppedPackets`)
 	paddingPackets uint16
 
+	// sequence number following the newest packet that went into a sample:
+	// a packet before it arrives too late to be part of an in-order sample
+	consumedTail    uint16
+	hasConsumedTail bool
+
 	// allows inspecting head packets of each sample and then returns a custom metadata
 	packetHeadHandler func(headPacket any) any
 
@@ -133,20 +138,22 @@ func (s *SampleBuilder) purgeConsumedBuffers() {
 // purgeConsumedLocation clears all buffers that have already been consumed
 // during a sample building method.
 func (s *SampleBuilder) purgeConsumedLocation(consume sampleSequenceLocation, forceConsume bool) {
-	if !s.filled.hasData() {
-		return
-	}
+	// every buffered packet of the consumed location is released, a packet
+	// left behind would be picked up again when the active window is refilled
+	for s.filled.hasData() {
+		switch consume.compare(s.filled.head) {
+		case slCompareInside:
+			if !forceConsume {
+				return
+			}
 
-	switch consume.compare(s.filled.head) {
-	case slCompareInside:
-		if !forceConsume {
-			break
+			fallthrough
+		case slCompareBefore:
+			s.releasePacket(s.filled.head)
+			s.filled.head++
+		default:
+			return
 		}
-
-		fallthrough
-	case slCompareBefore:
-		s.releasePacket(s.filled.head)
-		s.filled.head++
 	}
 }
 
@@ -183,6 +190,15 @@ func (s *SampleBuilder) purgeBuffers(flush bool) {
 // Push does not copy the input. If you wish to reuse
 // this memory make sure to copy before calling Push.
 func (s *SampleBuilder) Push(packet *rtp.Packet) {
+	if s.hasConsumedTail && int16(packet.SequenceNumber-s.consumedTail) < 0 { //nolint:gosec // G115, serial number arithmetic
+		// older than a sample that was already built: building a sample from it
+		// now would emit samples out of order (or the same packet twice)
+		if s.packetReleaseHandler != nil {
+			s.packetReleaseHandler(packet)
+		}
+
+		return
+	}
 	s.buffer[packet.SequenceNumber] = packet
 
 	switch s.filled.compare(packet.SequenceNumber) {
@@ -227,16 +243,18 @@ func (s *SampleBuilder) buildSample(purgingBuffers bool) *media.Sample {
 	var consume sampleSequenceLocation
 
 	for i := s.active.head; s.buffer[i] != nil && s.active.compare(i) != slCompareAfter; i++ {
-		if s.depacketizer.IsPartitionTail(s.buffer[i].Marker, s.buffer[i].Payload) {
-			consume.head = s.active.head
-			consume.tail = i + 1
-
-			break
-		}
+		// A packet with another timestamp starts the next sample, even
+		// when it is itself the tail of that (single packet) sample.
 		headTimestamp, hasData := s.fetchTimestamp(s.active)
 		if hasData && s.buffer[i].Timestamp != headTimestamp {
 			consume.head = s.active.head
 			consume.tail = i
+
+			break
+		}
+		if s.depacketizer.IsPartitionTail(s.buffer[i].Marker, s.buffer[i].Payload) {
+			consume.head = s.active.head
+			consume.tail = i + 1
 
 			break
 		}
@@ -324,6 +342,8 @@ func (s *SampleBuilder) buildSample(purgingBuffers bool) *media.Sample {
 
 	s.preparedSamples[s.prepared.tail] = sample
 	s.prepared.tail++
+	s.consumedTail = consume.tail
+	s.hasConsumedTail = true
 
 	s.purgeConsumedLocation(consume, true)
 	s.purgeConsumedBuffers()
